@@ -270,30 +270,74 @@ fn run(case: &str) -> String {
     // what the library itself reads from that file
     let expect: Vec<DltMessage> = adlt::utils::DltMessageIterator::new(0, std::io::Cursor::new(bytes)).collect();
 
-    let port = {
-        let l = std::net::TcpListener::bind("127.0.0.1:0").unwrap();
-        l.local_addr().unwrap().port()
-    };
-    let child = std::process::Command::new(adlt_bin())
-        .args(["remote", "-p", &port.to_string()])
-        .stdout(if std::env::var("VERIF_REM_STDERR").is_ok() { std::process::Stdio::inherit() } else { std::process::Stdio::null() })
-        .stderr(if std::env::var("VERIF_REM_STDERR").is_ok() { std::process::Stdio::inherit() } else { std::process::Stdio::null() })
-        .spawn()
-        .expect("adlt binary");
-    let start = Instant::now();
-    let ws = loop {
-        match tungstenite::client::connect(format!("ws://127.0.0.1:{}", port)) {
-            Ok(p) => break p.0,
-            Err(_) => {
-                if start.elapsed() > Duration::from_secs(5) {
-                    let mut c = child;
-                    let _ = c.kill();
-                    let _ = c.wait();
-                    return "NOCONNECT".to_string();
+    // start the server and make sure it is *our* child that listens on the port before connecting: the free port is found
+    // by binding port 0 and closing again, so a parallel session may grab the same port in between - then our child
+    // fails to bind and a connect would reach a foreign server (which dies when its own session ends)
+    let mut started = None;
+    for _attempt in 0..5 {
+        let port = {
+            let l = std::net::TcpListener::bind("127.0.0.1:0").unwrap();
+            l.local_addr().unwrap().port()
+        };
+        let mut child = std::process::Command::new(adlt_bin())
+            .args(["remote", "-p", &port.to_string()])
+            .stdout(std::process::Stdio::piped())
+            .stderr(if std::env::var("VERIF_REM_STDERR").is_ok() { std::process::Stdio::inherit() } else { std::process::Stdio::null() })
+            .spawn()
+            .expect("adlt binary");
+        let out = child.stdout.take().unwrap();
+        let (tx, rx) = std::sync::mpsc::channel::<bool>();
+        std::thread::spawn(move || {
+            use std::io::BufRead;
+            let echo = std::env::var("VERIF_REM_STDERR").is_ok();
+            let mut told = false;
+            for line in std::io::BufReader::new(out).lines() {
+                let Ok(line) = line else { break };
+                if echo {
+                    eprintln!("{}", line);
                 }
-                std::thread::sleep(Duration::from_millis(15));
+                if !told && line.contains("remote server listening on") {
+                    told = true;
+                    let _ = tx.send(true);
+                }
+            }
+            if !told {
+                let _ = tx.send(false);
+            }
+        });
+        match rx.recv_timeout(Duration::from_secs(10)) {
+            Ok(true) => {}
+            _ => {
+                let _ = child.kill();
+                let _ = child.wait();
+                continue;
             }
         }
+        let start = Instant::now();
+        let ws = loop {
+            match tungstenite::client::connect(format!("ws://127.0.0.1:{}", port)) {
+                Ok(p) => break Some(p.0),
+                Err(_) => {
+                    if start.elapsed() > Duration::from_secs(5) {
+                        break None;
+                    }
+                    std::thread::sleep(Duration::from_millis(15));
+                }
+            }
+        };
+        match ws {
+            Some(ws) => {
+                started = Some((child, ws));
+                break;
+            }
+            None => {
+                let _ = child.kill();
+                let _ = child.wait();
+            }
+        }
+    }
+    let Some((child, ws)) = started else {
+        return "NOCONNECT".to_string();
     };
     let mut s = Session { child, ws, ids: vec![], got: vec![], pending_frames_for_unknown: vec![], nr_file_msgs: 0, processed: Default::default(), expect, is_query: vec![], ended: vec![] };
     if let tungstenite::stream::MaybeTlsStream::Plain(t) = s.ws.get_mut() {
